@@ -161,7 +161,7 @@ package rgsw
 // ---- buffer's old contents were encrypted instead)
 //@ afunc Encryptor.EncryptZero
 //@   trusted opaque at the abstract level (rlwe encryptions of zero into every row of the two gadget matrices: property C03): writes the RGSW ciphertext only
-//@   assigns
+//@   clobbers ct
 //@ afunc Encryptor.Encrypt#plaintext
 //@   property C20 C09
 //@   dyn ct *Ciphertext
